@@ -225,3 +225,51 @@ pub fn shape_cases(rng: &mut Rng, count: usize) -> Vec<ShapeCase> {
     }
     out
 }
+
+/// One call of a reuse history.
+#[derive(Clone, Debug)]
+pub struct HistCall { pub algo: u8, pub method: u8, pub n: u64, pub bits: Vec<u64>, pub kind: &'static str }
+
+#[derive(Clone, Debug)]
+pub struct History { pub wide: bool, pub calls: Vec<HistCall> }
+
+pub fn history(rng: &mut Rng, thorough: bool) -> History {
+    let wide = rng.below(10) < 7;
+    let maxn: u64 = if wide { if thorough { 20 } else { 13 } } else { if thorough { 9 } else { 7 } };
+    let len = rng.range(2, if thorough { 10 } else { 6 });
+    let mut calls = Vec::new();
+    let mut n = rng.range(2, maxn);
+    for _ in 0..len {
+        // size walk: stay / shrink / grow / degenerate
+        n = match rng.below(8) {
+            0 => n,
+            1 | 2 => rng.range(2.min(n), n.max(2)),          // shrink (or stay)
+            3 | 4 => rng.range(n, maxn),                      // grow
+            5 => rng.below(2),                                // 0 or 1
+            _ => rng.range(2, maxn),
+        };
+        let algo = rng.below(5) as u8;
+        let method = loop { let m = rng.below(7) as u8; if accepts(algo, m) { break m; } };
+        let r = rng.below(100);
+        if r < 10 {
+            // malformed shape: panics in the shape check
+            let good = (n * n.saturating_sub(1) / 2) as usize;
+            let len = if rng.below(2) == 0 { good + 1 } else { good.saturating_sub(1).max(if good == 0 { 1 } else { 0 }) };
+            let len = if len == good { good + 2 } else { len };
+            let v: Vec<f64> = (0..len).map(|k| 1.0 + (k % 3) as f64).collect();
+            calls.push(HistCall { algo, method, n, bits: to_bits(&v, wide), kind: "malformed" });
+        } else if r < 16 && n >= 3 && (algo == 1 || algo == 2 || algo == 4) {
+            // NaN inside: the relabel sort panics after the scratch state was used
+            let mut v = matrix_f64(rng, n as usize, "uniform", wide);
+            let k = rng.below(v.len() as u64) as usize;
+            v[k] = f64::NAN;
+            if rng.below(2) == 0 { let k2 = rng.below(v.len() as u64) as usize; v[k2] = f64::NAN; }
+            calls.push(HistCall { algo, method, n, bits: to_bits(&v, wide), kind: "nan" });
+        } else {
+            let fam = match rng.below(10) { 0..=3 => "lattice", 4 => "duppoints", 5 => "allequal", 6 => "neartie", 7 => "euclid", _ => "uniform" };
+            let v = matrix_f64(rng, n as usize, fam, wide);
+            calls.push(HistCall { algo, method, n, bits: to_bits(&v, wide), kind: fam });
+        }
+    }
+    History { wide, calls }
+}
